@@ -133,7 +133,9 @@ def text_of(cfg):
         pdbfmt.renumber(items)
     if enc.startswith("cif"):
         from ..gen import cifwriter
-        return cifwriter.write(items, label_auth="wwpdb")
+        sd = cfg["w"].get("seed", 0)
+        return cifwriter.write(items, label_auth="wwpdb", layout=["wwpdb", "short", "shuffled", "extra"][sd % 4],
+                               rng=random.Random(sd + 3))
     return pdbfmt.to_text(items)
 
 
